@@ -2,6 +2,7 @@ package main
 
 import (
 	"fmt"
+	"github.com/johannesboyne/gofakes3"
 	"os"
 	"path/filepath"
 	"sort"
@@ -15,6 +16,20 @@ var c10Keys = []string{
 	".hidden", "..dots", "x\\y", "%2e%2e/z", "a%2Fb", "_meta", "metadata", ".modtime-resolution", "buckets/bkb/a",
 	"a_b", "a\\b", "x/y", "x_y", "A", // names that collide under flattening ('/', '\\' -> '_') or case folding
 	"dir", "/lead", "lead", "sp ace", "\xc3\xa9", "long/" + strings.Repeat("s", 254),
+	"lng/x/" + strings.Repeat("t", 256), // a segment no real directory can hold: refused there, and nothing may stay behind
+}
+
+// the labels an operation addressed to (bucket, key) may change
+func c10Addressed(b, k string) []string {
+	out := []string{"o|" + b + "|" + k + "\x00", "l|" + b + "|" + k + "\x00", "f|" + b + "|"}
+	if t := strings.TrimLeft(k, "/"); strings.Contains(t, "/") {
+		out = append(out, "p|"+b+"|"+t[:strings.Index(t, "/")+1]+"\x00") // the common prefix the key is grouped under
+	} else if t != k {
+		// a key that begins with the delimiter is outside the scope of the listing properties; the
+		// key-value backends report it as the common prefix "<first segment>" (see D32)
+		out = append(out, "p|"+b+"|"+t+"\x00")
+	}
+	return out
 }
 
 // what every probe universe contains
@@ -31,6 +46,14 @@ func c10Snapshot(s *Sess, buckets []string) []string {
 			}
 		} else {
 			add("l|"+b+"|", fmt.Sprint("list-status-", lr.Status))
+		}
+		// the grouped view: a common prefix has to come from a key (probed above) and go with it
+		if dr := do(s.h, Req{Method: "GET", Path: "/" + pathEscape(b) + "?delimiter=%2F"}); dr.Status == 200 {
+			for _, blk := range xmlBlocks(string(dr.Body), "CommonPrefixes") {
+				for _, p := range xmlAll(blk, "Prefix") {
+					add("p|"+b+"|"+p+"\x00", "prefix")
+				}
+			}
 		}
 		for _, k := range c10Keys {
 			if strings.TrimRight(k, "/") != k || k == "" {
@@ -52,24 +75,33 @@ func c10Snapshot(s *Sess, buckets []string) []string {
 	names := xmlAll(string(r.Body), "Name")
 	sort.Strings(names)
 	for _, n := range names {
-		add("b|"+n, "bucket")
+		add("b|"+n+"\x00", "bucket")
 	}
 	// on-disk tree of a real directory: anything outside the per-bucket roots
 	if s.st.dir != "" && (s.kind == "fsdir" || s.kind == "sfsdir") {
 		filepath.Walk(s.st.dir, func(p string, info os.FileInfo, err error) error {
-			if err != nil || info.IsDir() {
+			if err != nil {
 				return nil
 			}
 			rel, _ := filepath.Rel(s.st.dir, p)
 			rel = filepath.ToSlash(rel)
 			parts := strings.SplitN(rel, "/", 3)
+			size := fmt.Sprint(info.Size())
+			if info.IsDir() {
+				// directories count too: one left behind by a refused upload is a common prefix
+				// without a key and keeps its bucket from ever being deleted
+				if len(parts) < 3 {
+					return nil // the roots themselves and the bucket directories (probed through HEAD)
+				}
+				size = "dir"
+			}
 			switch {
 			case s.kind == "fsdir" && len(parts) == 3 && (parts[0] == "buckets" || parts[0] == "metadata"):
-				add("f|"+parts[1]+"|"+parts[0]+"/"+parts[2], fmt.Sprint(info.Size()))
+				add("f|"+parts[1]+"|"+parts[0]+"/"+parts[2], size)
 			case s.kind == "sfsdir" && len(parts) >= 2 && (parts[0] == "data" || parts[0] == "meta"):
-				add("f|"+singleBucketName+"|"+rel, fmt.Sprint(info.Size()))
+				add("f|"+singleBucketName+"|"+rel, size)
 			default:
-				add("x|"+rel, fmt.Sprint(info.Size())) // outside every bucket root
+				add("x|"+rel, size) // outside every bucket root
 			}
 			return nil
 		})
@@ -93,16 +125,21 @@ func runC10(tier string, seed uint64) {
 	if tier == "thorough" {
 		nseq, length = 60, 60
 	}
-	for _, kind := range allKinds {
+	for _, kindSpec := range append(append([]string{}, allKinds...), "mem+hostbase") {
+		kind := strings.TrimSuffix(kindSpec, "+hostbase")
 		buckets := []string{singleBucketName, "bkb", "bkc"}
 		probe := append([]string{}, buckets...)
-		probe = append(probe, "_meta", ".", "metadata", "buckets")
+		probe = append(probe, "_meta", ".", "metadata", "buckets", "bkc2", "bkc.x")
 		if isSingle(kind) {
 			buckets = []string{singleBucketName}
 		}
 		modelled := kind == "mem" || kind == "bolt"
 		for i := 0; i < nseq; i++ {
 			s := newSess("c10", kind, SessOpts{})
+			if kindSpec != kind {
+				// the same histories addressed host-style through a host-bucket-base server
+				s.h = hostStyle{inner: newServer(s.st.Backend, gofakes3.WithHostBucketBase("s3.example.com")), base: "s3.example.com"}
+			}
 			if !modelled {
 				emit("c10", "NOMODEL")
 			}
@@ -121,11 +158,28 @@ func runC10(tier string, seed uint64) {
 			s.Put(buckets[0], "lead", []byte("copy-source"), []KV{{"X-Amz-Acl", "public-read"}, {"X-Amz-Meta-Src", "1"}, {"Content-Type", "text/x-src"}, {"X-Amz-Storage-Class", "STANDARD"}})
 			stored[buckets[0]] = append(stored[buckets[0]], "lead")
 			before := c10Snapshot(s, probe)
+			if !isSingle(kind) {
+				// buckets whose names begin with another bucket's name are buckets of their own: creating
+				// and deleting the (empty) bucket "bkc" is no business of "bkc2" and "bkc.x"
+				for _, nb := range []string{"bkc2", "bkc.x"} {
+					s.MkBucket(nb)
+					s.Put(nb, "n", []byte("N-"+nb), []KV{{"X-Amz-Meta-Of", nb}})
+					s.Put(nb, "x/y", []byte("XY-"+nb), nil)
+				}
+				before = c10Snapshot(s, probe)
+				for step, f := range []func() Resp{func() Resp { return s.MkBucket("bkc") }, func() Resp { return s.RmBucket("bkc") }} {
+					r := f()
+					after := c10Snapshot(s, probe)
+					emit("c10", "FRAME", joinHex([]string{"e|bkc|", "l|bkc|", "p|bkc|", "o|bkc|", "b|bkc\x00", "f|bkc|"}), boolField(r.Status >= 400), strings.Join(before, ","), strings.Join(after, ","),
+						hs(fmt.Sprintf("%s %s of the empty bucket \"bkc\" next to \"bkc2\" and \"bkc.x\" status=%d", kind, []string{"creation", "deletion"}[step], r.Status)))
+					before = after
+				}
+			}
 			{
 				db := buckets[len(buckets)-1]
 				r := s.Copy(buckets[0], "lead", db, "x/y")
 				after := c10Snapshot(s, probe)
-				emit("c10", "FRAME", joinHex([]string{"o|" + db + "|x/y\x00", "l|" + db + "|x/y\x00", "f|" + db + "|"}), boolField(r.Status >= 400), strings.Join(before, ","), strings.Join(after, ","),
+				emit("c10", "FRAME", joinHex(c10Addressed(db, "x/y")), boolField(r.Status >= 400), strings.Join(before, ","), strings.Join(after, ","),
 					hs(fmt.Sprintf("%s copy of an object with ACL and metadata bucket=%q key=%q status=%d", kind, db, "x/y", r.Status)))
 				before = after
 			}
@@ -136,7 +190,7 @@ func runC10(tier string, seed uint64) {
 				}
 				k := c10Keys[rng.Intn(len(c10Keys))]
 				ek := k
-				addressed := []string{"o|" + b + "|" + ek + "\x00", "l|" + b + "|" + ek + "\x00", "f|" + b + "|"}
+				addressed := c10Addressed(b, ek)
 				var r Resp
 				switch w := rng.Intn(100); {
 				case w < 40:
@@ -170,12 +224,29 @@ func runC10(tier string, seed uint64) {
 					if len(stored[sb]) > 0 && rng.Intn(4) > 0 {
 						sk = stored[sb][rng.Intn(len(stored[sb]))]
 					}
+					if rng.Intn(6) == 0 && len(stored[sb]) > 0 {
+						// a source "bucket" that is none, spelling a path to a stored object: nothing to copy
+						real := sb + "/" + stored[sb][rng.Intn(len(stored[sb]))]
+						sb = []string{".", "..", "buckets", "metadata", "_meta", "./" + sb}[rng.Intn(6)]
+						sk = real
+						if sb == ".." || sb == "buckets" {
+							sk = "buckets/" + real
+						}
+						r = s.Copy(sb, sk, b, k)
+						msg := fmt.Sprintf("%s copy from source bucket %q key %q (no such bucket) to %q/%q answers %d", kind, sb, sk, b, k, r.Status)
+						if r.Status < 400 {
+							emit("c10", "BAD", hs("S:copy-served-from-a-name-that-is-no-bucket "+msg))
+						} else {
+							emit("c10", "GOOD", hs(msg))
+						}
+						break
+					}
 					r = s.Copy(sb, sk, b, k)
 				case w < 88:
 					// the keys of a multi-delete travel in the request body, byte for byte: "/x" is not "x"
 					if len(stored[b]) > 0 && rng.Intn(2) == 0 {
 						k = "/" + stored[b][rng.Intn(len(stored[b]))]
-						addressed = []string{"o|" + b + "|" + k + "\x00", "l|" + b + "|" + k + "\x00", "f|" + b + "|"}
+						addressed = c10Addressed(b, k)
 					}
 					r = s.MultiDelete(b, []KV{{K: k}})
 				case w < 92:
@@ -183,13 +254,13 @@ func runC10(tier string, seed uint64) {
 						continue
 					}
 					r = s.MkBucket(b)
-					addressed = []string{"e|" + b + "|", "l|" + b + "|", "o|" + b + "|", "b|" + b, "f|" + b + "|"}
+					addressed = []string{"e|" + b + "|", "l|" + b + "|", "p|" + b + "|", "o|" + b + "|", "b|" + b + "\x00", "f|" + b + "|"}
 				case w < 95:
 					if isSingle(kind) {
 						continue
 					}
 					r = s.RmBucket(b)
-					addressed = []string{"e|" + b + "|", "l|" + b + "|", "o|" + b + "|", "b|" + b, "f|" + b + "|"}
+					addressed = []string{"e|" + b + "|", "l|" + b + "|", "p|" + b + "|", "o|" + b + "|", "b|" + b + "\x00", "f|" + b + "|"}
 				default:
 					s.List(ListReq{Bucket: b, MaxKeys: -1})
 					addressed = nil
@@ -200,6 +271,16 @@ func runC10(tier string, seed uint64) {
 					hs(fmt.Sprintf("%s bucket=%q key=%q status=%d", kind, b, k, r.Status)))
 				nontrivial(fmt.Sprint(kind, b, k, r.Status))
 				before = after
+			}
+			if !isSingle(kind) && s.st.Ext == nil {
+				// last step (the model has no such operation): Minio's force-delete of a bucket with content.
+				// Whatever it answers, only that bucket may change.
+				fb := buckets[i%2]
+				rq := Req{Method: "DELETE", Path: "/" + fb, Header: [][2]string{{"x-minio-force-delete", "true"}}}
+				r := do(s.h, rq)
+				after := c10Snapshot(s, probe)
+				emit("c10", "FRAME", joinHex([]string{"e|" + fb + "|", "l|" + fb + "|", "p|" + fb + "|", "o|" + fb + "|", "b|" + fb + "\x00", "f|" + fb + "|"}), "0", strings.Join(before, ","), strings.Join(after, ","),
+					hs(fmt.Sprintf("%s force-delete of bucket %q status=%d", kind, fb, r.Status)))
 			}
 			s.end()
 		}
